@@ -253,6 +253,36 @@ template<typename T> void writeOld(hid_t group, const std::string &name, hid_t v
     H5Dclose(ds); H5Pclose(dcpl); H5Sclose(sp); H5Tclose(ct); H5Tclose(st);
 }
 }
+// pv_relabel <major> <minor> <patch> [Type:value,…] => ok <file version> <dtype> <valueCount> [Type:value,…]
+// a property written by the library (the current layout), the file then LABELLED with another format version that uses the same
+// layout (1.1.1 is the first), read through the public API from a ReadOnly session
+DRV_OP(pv_relabel) {
+    if (a.size() != 5) throw ProtoError("pv_relabel arity");
+    return guarded([&]() {
+        resetAll();
+        std::string path = scratch("relabel.nix");
+        std::vector<nix::Variant> vs = variants(a[4]);
+        { nix::File f = nix::File::open(path, nix::FileMode::Overwrite); nix::Section s = f.createSection("s", "t");
+          if (vs.size() == 1) s.createProperty("p", vs[0]); else s.createProperty("p", vs);
+          f.close(); }
+        {
+            hid_t fid = H5Fopen(path.c_str(), H5F_ACC_RDWR, H5P_DEFAULT);
+            if (fid < 0) throw ProtoError("pv_relabel: open");
+            int version[3] = {(int) tokInt(a[1]), (int) tokInt(a[2]), (int) tokInt(a[3])};
+            hid_t at = H5Aopen(fid, "version", H5P_DEFAULT);
+            if (at < 0 || H5Awrite(at, H5T_NATIVE_INT, version) < 0) throw ProtoError("pv_relabel: version");
+            H5Aclose(at); H5Fclose(fid);
+        }
+        nix::File f = nix::File::open(path, nix::FileMode::ReadOnly);
+        std::vector<std::string> ver; for (int v : f.version()) ver.push_back(std::to_string(v));
+        nix::Property p = f.getSection("s").getProperty("p");
+        std::vector<std::string> l;
+        for (auto &v : p.values()) l.push_back(variantTok(v));
+        std::string r = listTok(ver) + " " + nix::data_type_to_string(p.dataType()) + " " + std::to_string(p.valueCount()) + " " + listTok(l);
+        f.close();
+        return r;
+    });
+}
 // pv_old <Type> [Type:value,…] <uncertainty> => ok <file version> <dtype> <valueCount> [Type:value,…] <uncertainty|~>
 // a property of an old-format file holding these values, read through the public API from a ReadOnly session
 DRV_OP(pv_old) {
